@@ -335,6 +335,10 @@ class OperandNode(ASTNode):
                      .replace('\n', '\\n').replace('\r', '\\r'))
             return f'"{value}"'
 
+        elif self.subtype == self.token.NUMBER and self.value.isdigit():
+            # python rejects integer literals with leading zeros
+            return self.value.lstrip('0') or '0'
+
         else:
             return self.value
 
